@@ -1,5 +1,22 @@
 /-
-  T07 — translator tie for C07.
+  T07 — translator tie for C07: every definition that harness/translate/src_c07.py regenerates from the CURRENT source of
+  commonroad/scenario/scenario.py and commonroad/scenario/lanelet.py (module Gen.SrcC07, rebuilt on every run) EQUALS the
+  hand-written model CRModel/Assign.lean that the C07 / C07b / C07c theorems are about, for all arguments:
+
+    Lanelet.add_static_obstacle_to_lanelet / add_dynamic_obstacle_to_lanelet     = sAdd / dAdd on the lanelet's registry
+    Scenario._add_static_obstacle_to_lanelets                                    = addStaticReg
+    Scenario._remove_static_obstacle_from_lanelets                               = removeStaticReg
+    Scenario._add_dynamic_obstacle_to_lanelets                                   = addToLanelets (non-static kinds)
+    Scenario._remove_dynamic_obstacle_from_lanelets                              = unregCenter ∘ unregShape (dynamic branch of remove)
+    Scenario.remove_obstacle (one obstacle object)                               = remove
+    Scenario.add_objects (StaticObstacle / DynamicObstacle argument)             = add
+    Scenario.assign_obstacles_to_lanelets and its two nested functions           = assign, assignDynAt, assignStatic
+
+  The generated definitions thread ONE state `s : St` through the Python statements (see the translator's docstring); the
+  Python operations on the object graph denote the primitives of CRModel/PyExtC07.lean (trusted call table).  The loop lemmas
+  take the loop body as a variable with a semantic hypothesis that a tactic (`reg_tac`, `discard_tac`) proves by normalising
+  the generated body, so renamed locals, reordered independent statements, `if/else` ↔ conditional expressions etc. do not
+  break the proofs; a change of what a function does to a registry / attribute on ANY branch does.
 -/
 import Gen.SrcC07
 import CRProofs.Assign
@@ -464,5 +481,33 @@ theorem tie_assign_dynamic_obstacle_shape_at_time (E : Env) (co : Bool) (s : St)
           simp [ht, hk, htf, hlt, h1, h2, hpc, hps, trajStateAt, predIsNone, predCenterSetItem, predShapeSetItem, dynOccAt, derefAt,
             setInitShape, setInitCenter, bind, Except.bind, pure, Except.pure, Int.not_lt.mpr htf] <;>
           fin_dyn E, o, t
+
+theorem setFwd_same (s : St) (o : Id) (f : Fwd) (h : f = s.fwd o) : s.setFwd o f = s := by
+  subst h
+  cases s
+  simp only [St.setFwd, St.mk.injEq, and_true]
+  funext x
+  by_cases hx : x = o <;> simp [hx]
+
+theorem pyRange_trange (a : Int) (n : Nat) : pyRange a (a + (n : Int) + 1) = trange a n := by
+  unfold pyRange trange
+  have : (a + (n : Int) + 1 - a).toNat = n + 1 := by omega
+  rw [this]
+
+/-- `Scenario.assign_obstacles_to_lanelets(time_steps, obstacle_ids, use_center_only)` is the model's `assign` -/
+theorem tie_assign_obstacles_to_lanelets (E : Env) (s : St) (ts : Option (List T)) (ids : Option (List Id)) (co : Bool) :
+    Gen.Scenario_assign_obstacles_to_lanelets E s ts ids co = assign E ids ts co s := by
+  unfold Gen.Scenario_assign_obstacles_to_lanelets assign
+  cases ids <;> simp only [bind, Except.bind, pure, Except.pure, Option.getD] <;>
+    (congr 1; funext s o
+     unfold assignObs
+     by_cases hd : o ∈ s.dynamics
+     · cases hkind : E.kind o <;> cases ts <;> cases co <;> cases hpc : (s.fwd o).predCenter <;> cases hps : (s.fwd o).predShape <;>
+         simp [obstacleById, isDynamicObj, hd, deref, hkind, hpc, hps, predIsNone, predShape, predCenter, setPredShape, setPredCenter,
+           initDicts, tie_assign_dynamic_obstacle_shape_at_time, Env.tf, pyRange_trange, bind, Except.bind, pure, Except.pure]
+       all_goals (congr 1; exact (setFwd_same _ _ _ (by cases hf : s.fwd o; simp_all)).symm)
+     · by_cases hs : o ∈ s.statics
+       · simp [obstacleById, isDynamicObj, hd, hs, deref, tie_assign_static_obstacle, bind, Except.bind]
+       · simp [obstacleById, isDynamicObj, hd, hs, deref, bind, Except.bind])
 
 end CR.Assign
